@@ -28,7 +28,7 @@ ASSUMPTIONS = [
 ]
 NOT_REACHED = ["curves without a peak in the range (refused / undefined)", "grids above 400 points"]
 BUDGET = {"quick": dict(cases=3000, seconds=60, shards=4),
-          "thorough": dict(cases=150000, seconds=600, shards=16)}
+          "thorough": dict(cases=1500000, seconds=600, shards=16)}
 REQUIRED = ["mon:reliability-verdicts", "mon:clarity-verdicts", "mon:more-windows-never-fail-ii",
             "mon:smaller-fn-std-never-fails-v", "mon:verbosity-levels-agree"]
 
